@@ -292,6 +292,31 @@ def frag_taskgraph(repo):
     tr = mk_tr({"state": ("state", "TaskState")})
     out.append("Definition notify_moved_beyond (state : task_state) : bool :=\n  %s.\n" %
                texpr(tr, subst(guard.test, {"child_to_release.state": "state"}, ["child_to_release.state"]), "bool"))
+    # the two tests on the children's probabilities (floats): recognised by their exact text, rendered over
+    # integer numerators (probability = numerator / g_den, exactly representable quotients)
+    ztest = rtest = None
+    for st in clean(top.body):
+        if isinstance(st, ast.If) and src(st.test).startswith("all("):
+            ztest = st
+        if isinstance(st, ast.If) and len(clean(st.body)) == 1 and isinstance(clean(st.body)[0], ast.Raise) \
+                and "task_children_probabilities" in src(st.test):
+            rtest = st
+    ZFORMS = {"all([prob <= sys.float_info.epsilon for prob in task_children_probabilities])":
+              "forallb (fun prob => prob <=? 0) probs"}
+    RFORMS = {"sum(task_children_probabilities) - 1.0 > sys.float_info.epsilon": "den <? total",
+              "abs(sum(task_children_probabilities) - 1.0) > sys.float_info.epsilon": "negb (total =? den)"}
+    if ztest is None or src(ztest.test) not in ZFORMS:
+        die(top, "notify_task_completion: the all-children-zero test changed: %s" % (src(ztest.test) if ztest else None))
+    if rtest is None or src(rtest.test) not in RFORMS or exc_name(clean(rtest.body)[0]) != "ValueError":
+        die(top, "notify_task_completion: the probability sanity test changed: %s" % (src(rtest.test) if rtest else None))
+    zb = clean(ztest.body)
+    if not (len(zb) == 2 and isinstance(zb[0], ast.For) and src(zb[0].iter) == "task_children"
+            and [src(x) for x in clean(zb[0].body)] == ["cancelled_tasks.extend(self.cancel(child, finish_time))"]
+            and src(zb[1]) == "return (released_tasks, cancelled_tasks)"):
+        die(ztest, "notify_task_completion: the all-children-zero branch changed")
+    out.append("(* probabilities as integer numerators over g_den; `total` = their sum *)\n"
+               "Definition probs_all_zero (probs : list Z) : bool :=\n  %s.\n" % ZFORMS[src(ztest.test)])
+    out.append("Definition probs_rejected (total den : Z) : bool :=\n  %s.\n" % RFORMS[src(rtest.test)])
     eb = clean(top.orelse)
     if not (len(eb) == 1 and isinstance(eb[0], ast.For) and src(eb[0].iter) == "self.get_children(task)"
             and src(eb[0].target) == "child"):
